@@ -83,7 +83,8 @@ var extPurePrefixes = []string{"strings.", "strconv.", "unicode/", "errors.", "f
 	"(time.", "time.", "reflect.TypeOf", "reflect.TypeFor", "(reflect.Value).Is", "(reflect.Value).Kind", "(reflect.Type)", "bytes.Equal", "bytes.ReplaceAll", "bytes.Replace",
 	"bytes.Index", "bytes.Contains", "bytes.HasPrefix", "bytes.HasSuffix", "encoding/json.Marshal", "github.com/go-ap/jsonld.Marshal", "github.com/go-ap/errors.",
 	"git.sr.ht/~mariusor/go-xsd-duration.Marshal", "(*strings.Builder).String", "(*strings.Builder).Len", "(*bytes.Buffer).Len", "(*bytes.Buffer).String",
-	"(*github.com/valyala/fastjson.Value).", "(*github.com/valyala/fastjson.Object).Len", "math.", "unicode.", "(*strings.Builder).Reset"}
+	"(*github.com/valyala/fastjson.Value).", "(*github.com/valyala/fastjson.Object).Len", "math.", "unicode.", "(*strings.Builder).Reset",
+	"slices.Contains", "slices.Index", "slices.Equal", "maps.Keys", "sort.Search", "bytes.Compare", "bytes.Count", "bytes.LastIndex", "bytes.ToLower", "bytes.ToUpper", "bytes.Clone", "slices.Clone"}
 
 type effects struct {
 	w          *World
@@ -292,7 +293,18 @@ func (e *effects) extSummary(fn *ssa.Function) (extEff, bool) {
 			return extEff{calls: -1}, true
 		}
 	}
-	return extEff{calls: -1}, false
+	// a dependency nobody has reviewed: assume the worst that its signature allows — it may write through every
+	// pointer-like argument and hand back memory that aliases them (a pool's Get/Put, a cache, an in-place filter)
+	ee := extEff{calls: -1}
+	n := fn.Signature.Params().Len()
+	if fn.Signature.Recv() != nil {
+		n++
+	}
+	for i := 0; i < n; i++ {
+		ee.writes = append(ee.writes, i)
+		ee.alias = append(ee.alias, i)
+	}
+	return ee, false
 }
 
 func (e *effects) argList(c *ssa.Call) []ssa.Value {
